@@ -7,7 +7,7 @@ CONSTANTS
   Sizes <- SizesFull
   Labels = {"", "L", "l", "K", "L_002", "locus001"}
   Targets = {1, 2, 3, 4}
-  TaxonSets <- TaxonSetsFull
+  TaxonSeqs <- TaxonSeqsFull
 INVARIANT TypeOK
 INVARIANT ConcatRowsExact
 INVARIANT ConcatSubsetsExact
